@@ -18,10 +18,26 @@ The property has two halves.
   not of the order of presentation — at full strength where that is true, and with the
   proved negation + the exact excluded region where it is false of the code.
 
-Only statements live here; proofs are in Proofs/{Sanitize,Toposort}.lean.
+  Session 3 adds: Tarjan's algorithm as transcribed from scc.go is PROVED to deliver the
+  strongly connected components (the former OPEN statement), which removes the `IsSCC`
+  hypothesis from the statements about `Graph.Sort` as a whole (`C02_sort_*`); and the graph
+  construction of `toposort.VertexFeatures` is transcribed and proved to produce well-formed
+  graphs only, whatever the struct literals are (`C02_vertexFeatures_*`).
+
+* Scanner: the loops of cue/scanner/scanner.go are transcribed at the level of progress
+  (each iteration consumes a rune or stops at end of input) and proved total
+  (`C02_scan_*`, Proofs/ScanLoops.lean) — a statement about the MODEL's loops, tied to the
+  implementation by a token-boundary trace comparison; it does not turn the observed half
+  into a proof.
+
+Only statements live here; proofs are in Proofs/{Sanitize,Toposort,ToposortKahn,ToposortIndep,
+ToposortTarjan,VertexFeatures,ScanLoops}.lean.
 -/
 import CueVerif.Proofs.Sanitize
 import CueVerif.Proofs.ToposortIndep
+import CueVerif.Proofs.ToposortTarjan
+import CueVerif.Proofs.VertexFeatures
+import CueVerif.Proofs.ScanLoops
 namespace CueVerif.C02
 open CueVerif CueVerif.Sanitize CueVerif.Toposort
 
@@ -163,13 +179,161 @@ theorem C02_toposort_cmp_preorder (fixed : Bool) :
     TotalPreorder (cmpLabel fixed) ∧ TotalPreorder (cmpComp fixed) :=
   ⟨Toposort.cmpLabel_tp fixed, Toposort.cmpComp_tp fixed⟩
 
-/-- OPEN (believed true, classical; mechanising Tarjan's algorithm is out of budget): the
-transcription of scc.go computes the strongly connected components, i.e. the hypothesis
-`IsSCC g comps` of the theorems above holds of what `StronglyConnectedComponents()` returns.
-Tied instead by pins and by correspondence: on every generated graph the harness compares the
-component SETS of the real `Graph.StronglyConnectedComponents()` with those of the executable
-transcription `tarjan` (I-level op `scc`), and the final order with `sortG` (O-level op `topo`). -/
+/-! ### Tarjan's algorithm as written in scc.go -/
+
+/-- The transcription of scc.go computes the strongly connected components: the hypothesis
+`IsSCC g comps` of the theorems above holds of what `StronglyConnectedComponents()` returns
+(`tarjan`, fuelled with `tarjanFuel g`; the proof shows the fuel is never exhausted). -/
 def C02_tarjan_stmt : Prop := ∀ g : Graph, g.WF → IsSCC g (tarjan g)
+
+/-- PROVED (session 3; was OPEN): invariant proof over the fuelled mutual recursion
+`findSCC`/`visitOut` (Proofs/ToposortTarjan.lean). -/
+theorem C02_tarjan : C02_tarjan_stmt := fun g hg => Toposort.tarjan_isSCC g hg
+
+/-- the components partition the node set: no node twice, no empty component, exactly the nodes -/
+theorem C02_tarjan_partition (g : Graph) (hg : g.WF) :
+    (tarjan g).flatten.Nodup ∧ (∀ c ∈ tarjan g, c ≠ []) ∧ (∀ v, v ∈ g.nodes ↔ ∃ c ∈ tarjan g, v ∈ c) :=
+  Toposort.tarjan_partition g hg
+
+/-- every returned component is strongly connected -/
+theorem C02_tarjan_strongly_connected (g : Graph) (hg : g.WF) :
+    ∀ c ∈ tarjan g, ∀ u ∈ c, ∀ v ∈ c, Reach g u v ∧ Reach g v u :=
+  Toposort.tarjan_strongly_connected g hg
+
+/-- "The components returned are topologically sorted (forwards)" (doc comment of
+`StronglyConnectedComponents`): no edge leads from a later component of the returned list
+into an earlier one. -/
+theorem C02_tarjan_topological (g : Graph) (hg : g.WF) :
+    ∀ l1 c l2 d l3, tarjan g = l1 ++ c :: l2 ++ d :: l3 → ∀ u ∈ d, ∀ v ∈ g.out u, v ∉ c :=
+  Toposort.tarjan_reverse_topological g hg
+
+-- non-vacuity: a 3-cycle with a tail and an isolated node is well formed; its components
+example : Toposort.Tarjan.exG.WF := Toposort.Tarjan.exG_wf
+example : tarjan Toposort.Tarjan.exG = [[.int 4], [.int 2, .int 1, .int 0], [.int 3]] := by decide
+
+/-! ### Graph.Sort end to end (components from Tarjan's algorithm: no `IsSCC` hypothesis left) -/
+
+/-- `Graph.Sort` as a whole never panics on `sccReady[0]`, never runs out of the model's fuel
+and returns a permutation of the nodes, for every well-formed graph. -/
+theorem C02_sort_ok (S : SortFn) (hS : S.Contract) (g : Graph) (hg : g.WF) :
+    ∃ l, sortG true S g = .ok l ∧ l.Perm g.nodes :=
+  Toposort.sortG_ok S hS g hg
+
+/-- `Graph.Sort` as a whole is a function of the vertex and edge SETS: two presentations of a
+graph (node order = Go map iteration, edge order) and two conforming sorts give the same order. -/
+theorem C02_sort_perm (S S' : SortFn) (hS : S.Contract) (hS' : S'.Contract) (g g' : Graph)
+    (hg : g.WF) (hg' : g'.WF) (hsame : g.Same g') : sortG true S g = sortG true S' g' :=
+  Toposort.sortG_indep S S' hS hS' g g' hg hg' hsame
+
+/-- … and respects every precedence edge that is not on a cycle. -/
+theorem C02_sort_sound (S : SortFn) (hS : S.Contract) (g : Graph) (hg : g.WF) (l : List Label)
+    (hl : sortG true S g = .ok l) (u v : Label) (hu : u ∈ g.nodes) (huv : v ∈ g.out u)
+    (hacyc : ¬ Reach g v u) : Before l u v :=
+  Toposort.sortG_respects S hS g hg l hl u v hu huv hacyc
+
+/-! ### toposort.VertexFeatures: the graph a list of struct literals induces -/
+
+/-- Whatever the struct literals (positions, explicitness, field orders) and arcs are, the
+builder `VertexFeatures` hands to `Build` is a map with distinct keys whose edges join nodes,
+and every arc is a node: so EVERY node order `Build` can produce (any permutation of the keys)
+is a well-formed graph — the hypothesis `g.WF` of the theorems above is met by construction. -/
+theorem C02_vertexFeatures_wf (S0 : SortFn) (arcs : List Label) (roots : List Root) :
+    (buildVF S0 arcs roots).WF ∧ (∀ a ∈ arcs, a ∈ (buildVF S0 arcs roots).keys) ∧
+    (∀ ns, ns.Perm (buildVF S0 arcs roots).keys → ((buildVF S0 arcs roots).graph ns).WF) :=
+  ⟨Toposort.buildVF_wf S0 arcs roots, Toposort.buildVF_arcs S0 arcs roots,
+   fun ns hp => Toposort.graph_wf _ (Toposort.buildVF_wf S0 arcs roots) ns hp⟩
+
+/-- The field order `VertexFeatures` returns is a function of the struct literals and arcs it
+is given — the same for every order in which `maps.Values(nodesByFeature)` may list the nodes
+(Go map iteration), and for every conforming sort inside `Graph.Sort`. -/
+theorem C02_vertexFeatures_perm (S0 S S' : SortFn) (hS : S.Contract) (hS' : S'.Contract)
+    (arcs : List Label) (roots : List Root) (ns ns' : List Label)
+    (hp : ns.Perm (buildVF S0 arcs roots).keys) (hp' : ns'.Perm (buildVF S0 arcs roots).keys) :
+    sortG true S ((buildVF S0 arcs roots).graph ns) = sortG true S' ((buildVF S0 arcs roots).graph ns') :=
+  Toposort.vertexFeatures_sortG_indep S0 S S' hS hS' arcs roots ns ns' hp hp'
+
+/-- … never the `sccReady[0]` panic; the result lists exactly the builder's nodes. -/
+theorem C02_vertexFeatures_ok (S0 S : SortFn) (hS : S.Contract)
+    (arcs : List Label) (roots : List Root) (ns : List Label)
+    (hp : ns.Perm (buildVF S0 arcs roots).keys) :
+    ∃ l, sortG true S ((buildVF S0 arcs roots).graph ns) = .ok l ∧ l.Perm (buildVF S0 arcs roots).keys :=
+  Toposort.vertexFeatures_sortG_ok S0 S hS arcs roots ns hp
+
+-- non-vacuity (a test): `x: {z: _, y: _} & {y: _, w: _, z: _}` (case 2 of the comment in
+-- vertex.go: an explicit unification introduces the cycle y → w → z → y… here z → y, y → w,
+-- w → z): the three labels form one component and come out in name order
+example :
+    let z : Label := .named 1 [122]
+    let y : Label := .named 1 [121]
+    let w : Label := .named 1 [119]
+    vertexFeatures stableSort [z, y, w]
+      [⟨1, ⟨1, [97], 3, 0⟩, true, [z, y]⟩, ⟨2, ⟨1, [97], 20, 0⟩, true, [y, w, z]⟩] = .ok [w, y, z] := by
+  decide
+
+-- … and implicit unification in source order keeps the source order: `c: {z: _, y: _}`,
+-- `c: {x: _, w: _}` gives z, y, x, w
+example :
+    let z : Label := .named 1 [122]
+    let y : Label := .named 1 [121]
+    let x : Label := .named 1 [120]
+    let w : Label := .named 1 [119]
+    vertexFeatures stableSort [w, x, y, z]
+      [⟨1, ⟨1, [97], 3, 0⟩, false, [z, y]⟩, ⟨2, ⟨1, [97], 20, 0⟩, false, [x, w]⟩] = .ok [z, y, x, w] := by
+  decide
+
+/-! ### the scanner's loops (cue/scanner/scanner.go): every loop makes progress
+
+The model (Model/ScanLoops.lean) works on the rune sequence `Scanner.next` delivers; `e : Env`
+is the input together with two ORACLES that are not this property's to model: the Unicode
+letter/digit classes of runes ≥ 0x80, and the extent of a number literal (`scanNumber`, owned
+by C09) — a number oracle that does not make progress yields the explicit result `badOracle`.
+Every Go `for` loop is a fuelled function; `Res.fuel` = "the loop did not stop within the fuel".
+These are theorems about the MODEL's loops; they are tied to the implementation by pins and by
+comparing token-boundary traces (op `scan`), and say nothing about run time or memory. -/
+
+/-- `recoverParen` (the loop of seeded change C02-a) stops within `length − position + 1`
+iterations, at a position between its start and the end of input — for every input, every
+start position and every parenthesis count. -/
+theorem C02_scan_recoverParen_total (e : ScanLoops.Env) (f : Nat) (opn : Int) (p : Nat)
+    (h : p ≤ e.len) (hf : e.len - p + 1 ≤ f) : ScanLoops.Bnd e p (ScanLoops.recoverParen e f opn p) :=
+  ScanLoops.recoverParen_total e f opn p h hf
+
+/-- likewise `skipWhitespace`, `scanComment` and the main loop of `scanString` (single-line,
+multi-line, `#`-quoted, resumed after an interpolation) -/
+theorem C02_scan_loops_total (e : ScanLoops.Env) (f p : Nat) (h : p ≤ e.len) (hf : e.len - p + 1 ≤ f) :
+    (∀ eol, ScanLoops.Bnd e p (ScanLoops.skipWhitespace e eol f p)) ∧
+    ScanLoops.Bnd e p (ScanLoops.scanComment e f p) ∧
+    (∀ q cont, ∃ r, ScanLoops.scanString e q cont f p = .ok r ∧ p ≤ r.1 ∧ r.1 ≤ e.len) :=
+  ⟨fun eol => ScanLoops.skipWhitespace_total e eol f p h hf, ScanLoops.scanComment_total e f p h hf,
+   fun q cont => ScanLoops.scanString_total e q cont f p h hf⟩
+
+/-- One call of `Scan` (whole dispatch, incl. the recursion through attributes) never runs out
+of fuel `μ + 2`, and every token other than EOF strictly decreases the measure
+`μ = 2·(runes left) + (insertEOL ? 1 : 0)`: it either consumes at least one rune or — the
+elided comma before a newline comment / at end of input — clears `insertEOL` in place. -/
+theorem C02_scan_progress (e : ScanLoops.Env) (F : Nat) (st st' : ScanLoops.St) (start : Nat)
+    (cls : ScanLoops.Cls) (h0 : st.pos ≤ e.len) (hF : ScanLoops.μ e st + 2 ≤ F)
+    (h : ScanLoops.scan e F st = .ok (st', start, cls)) :
+    st'.pos ≤ e.len ∧ ScanLoops.μ e st' ≤ ScanLoops.μ e st ∧
+      (cls ≠ .EOF → ScanLoops.μ e st' < ScanLoops.μ e st) :=
+  ScanLoops.scan_progress e F st st' start cls h0 hF h
+
+theorem C02_scan_call_total (e : ScanLoops.Env) (F : Nat) (st : ScanLoops.St) (h0 : st.pos ≤ e.len)
+    (hF : ScanLoops.μ e st + 2 ≤ F) : ScanLoops.scan e F st ≠ .fuel :=
+  ScanLoops.scan_total e F st h0 hF
+
+/-- Scanner totality: the client loop the parser runs (Scan until EOF, ResumeInterpolation
+after the parenthesis that closes an interpolation) ends within `2·length + 4` calls for EVERY
+rune sequence and EVERY oracle. -/
+theorem C02_scan_total (e : ScanLoops.Env) : ScanLoops.scanAll e ≠ .fuel :=
+  ScanLoops.scanAll_total e
+
+-- non-vacuity (tests): the input of seeded change C02-a is scanned to the end — the attribute
+-- swallows the interpolation, `recoverParen` runs into the end of input and stops there
+example : ScanLoops.scanAll (ScanLoops.sampleEnv "@x(\"\\(" []) =
+    .ok [(0, 6, .ATTR), (6, 6, .COMMA_ELIDED), (6, 6, .EOF)] := by decide
+-- a number oracle that makes no progress is reported, not looped on
+example : ScanLoops.scanAll (ScanLoops.sampleEnv "1" [(0, 0)]) = .badOracle := by decide
 
 -- non-vacuity: the contract of the sort is met by insertion sort, and `IsSCC` by the
 -- singleton partition of the (edgeless) witness graph; with cycles see the test below
